@@ -1,5 +1,5 @@
 import SaphyrVerif.Lemmas.C12Literal
-import SaphyrVerif.Lemmas.C12Doc
+import SaphyrVerif.Lemmas.C12Frame
 /-!
 Helper lemmas for C12: the automatic literal block at document level — what `serialize_str` writes
 (`serializeStr_literal`) and how `readNode` / `readDoc` read it (`readNode_block`).
@@ -8,12 +8,6 @@ set_option linter.unusedSimpArgs false
 
 namespace SaphyrVerif.Lemmas.C12
 open SaphyrVerif SaphyrVerif.SerScalar SaphyrVerif.Spec.Read SaphyrVerif.Scalars
-
-/-- the base depth `serialize_str` uses for a block scalar -/
-def blockBase (cx : Ctx) : Nat :=
-  if cx.pendingSpace then cx.mapDepth.getD cx.depth else cx.afterDash.getD cx.depth
-
-def needsInd (v : List Char) : Bool := firstLineLeadingSpaces (trimEndNl v) > 0
 
 theorem joinLines_map (f : List Char → List Char) (ls : List (List Char)) :
     ls.flatMap (fun line => f line ++ ['\n']) = joinLines (ls.map f) := by
@@ -28,50 +22,19 @@ theorem joinLines_replicate (k : Nat) (x : List Char) :
   | zero => rfl
   | succ k ih => simp [List.replicate_succ, joinLines, List.flatMap_cons] at ih ⊢; exact ih
 
-/-- what `serialize_str` writes in the automatic literal style (content not empty, no fallback to
-quoting because of a two-digit indicator) -/
-theorem serializeStr_literal (o : Opts) (cx : Ctx) (v : List Char)
-    (hauto : autoStyle o cx.inFlow v = some .literal) (hcontent : trimEndNl v ≠ [])
-    (hfb : needsInd v = true → o.indentStep * (blockBase cx + 1) ≤ 9) (hb0 : blockBase cx = 0) :
-    serializeStr o cx v = .ok
-      ((if cx.pendingSpace then [' '] else []) ++ writeIndent o cx (blockBase cx) ++
-        ('|' :: (litHeader (if firstLineLeadingSpaces (trimEndNl v) > 0 then some (o.indentStep * (blockBase cx + 1)) else none)
-                  (v.length - (trimEndNl v).length)
-          ++ '\n' :: joinLines (litLines (o.indentStep * (blockBase cx + 1)) v)))) := by
-  unfold serializeStr
-  rw [hauto]
-  simp only
+/-- the literal body the writer emits is the joined `litLines` (content not empty) -/
+theorem literalBody_eq (N : Nat) (v : List Char) (hcontent : trimEndNl v ≠ []) :
+    literalBody N v = joinLines (litLines N v) := by
   have hce : (trimEndNl v).isEmpty = false := by
     cases h : trimEndNl v with
     | nil => exact absurd h hcontent
     | cons a b => rfl
-  have hbase : (if cx.pendingSpace = true then cx.mapDepth.getD cx.depth else cx.afterDash.getD cx.depth) = blockBase cx := rfl
-  rw [hbase]
-  have hsh : (decide (o.indentStep < 2) && !cx.pendingSpace && decide (blockBase cx > 0)) = false := by
-    rw [hb0]; simp
-  by_cases hn : firstLineLeadingSpaces (trimEndNl v) > 0
-  · have hle := hfb (by simp [needsInd, hn])
-    have hnot : ¬ (o.indentStep * (blockBase cx + 1) > 9) := by omega
-    have hb0' : ¬ (blockBase cx > 0) := by omega
-    simp only [hsh, hn, decide_true, Bool.true_and, decide_eq_true_eq, hnot, hb0', decide_false, Bool.or_self,
-      if_false, hce, Bool.false_eq_true, if_true, litHeader, litLines, joinLines_map, joinLines_append]
-    congr 1
-    simp only [List.append_assoc, List.cons_append, List.nil_append, List.singleton_append]
-    congr 4
-    by_cases h2 : v.length - (trimEndNl v).length ≥ 2
-    · simp [h2, joinLines_replicate]
-    · have : v.length - (trimEndNl v).length - 1 = 0 := by omega
-      simp [h2, this, joinLines]
-  · simp only [hsh, hn, decide_false, Bool.false_and, Bool.or_self, Bool.false_eq_true, if_false, hce, litHeader, litLines,
-      joinLines_map, joinLines_append, List.nil_append]
-    congr 1
-    simp only [List.append_assoc, List.cons_append, List.nil_append, List.singleton_append]
-    congr 3
-    by_cases h2 : v.length - (trimEndNl v).length ≥ 2
-    · simp [h2, joinLines_replicate]
-    · have : v.length - (trimEndNl v).length - 1 = 0 := by omega
-      simp [h2, this, joinLines]
-
+  simp only [literalBody, litLines, hce, Bool.false_eq_true, if_false, joinLines_map, joinLines_append]
+  congr 1
+  by_cases h2 : v.length - (trimEndNl v).length ≥ 2
+  · simp [h2, joinLines_replicate]
+  · have : v.length - (trimEndNl v).length - 1 = 0 := by omega
+    simp [h2, this, joinLines]
 
 theorem takeWhile_nobreak (hdr rest : List Char) (h : ∀ c ∈ hdr, isBreak c = false) :
     (hdr ++ '\n' :: rest).takeWhile (fun c => !isBreak c) = hdr ∧
@@ -82,14 +45,6 @@ theorem takeWhile_nobreak (hdr rest : List Char) (h : ∀ c ∈ hdr, isBreak c =
     have ha := h a (by simp)
     have := ih (fun c hc => h c (by simp [hc]))
     simp [List.takeWhile, List.dropWhile, ha, this.1, this.2]
-
-theorem isDocMarker_head (a : Char) (t : List Char) (h1 : a ≠ '-') (h2 : a ≠ '.') : isDocMarker (a :: t) = false := by
-  cases t with
-  | nil => rfl
-  | cons b t =>
-    cases t with
-    | nil => rfl
-    | cons c r => simp [isDocMarker, h1, h2]
 
 /-- the node-level reader on a block scalar text: header line, then the body lines -/
 theorem readNode_block (p : Spec.Read.Pos) (hcl : p.closing = []) (hfl : p.isFlow = false) (literal : Bool)
@@ -208,11 +163,95 @@ theorem litHeader_chars (d : Option Nat) (hd : ∀ n, d = some n → 1 ≤ n ∧
     have key : ∀ m ∈ [0, 1, 2], ∀ c ∈ chompInd m, isBreak c = false ∧ isNul c = false := by decide
     exact key _ hm c hc
 
-/-- positions in which a block scalar's body is at `indent_step` columns and the parent node is at
-column 0 or is the root -/
-def blockSimplePos : SerScalar.Pos → Bool
-  | .root | .mapValue | .seqItem | .variant => true
+/-- the block value positions: root, map value, seq item, enum newtype payload, sequence in sequence,
+mapping in mapping, sequence in mapping -/
+def isBlockPos : SerScalar.Pos → Bool
+  | .root | .mapValue | .seqItem | .variant | .seqInSeq | .nestedMapValue | .seqInMap => true
   | _ => false
+
+theorem blockPos_facts (p : SerScalar.Pos) (hp : isBlockPos p = true) :
+    isKeyPos p = false ∧ (toRead p).isFlow = false ∧ (toRead p).closing = [] := by
+  cases p <;> first | (cases hp; done) | exact ⟨rfl, rfl, rfl⟩
+
+theorem indentCols_nat (o : Opts) (cx : Ctx) (d k : Nat) (h : ((o.indentStep * d : Nat) : Int) + cx.shift = (k : Int)) :
+    indentCols o cx d = k := by
+  unfold indentCols
+  rw [h]; rfl
+
+/-- base depth, body column and parent column per block position: either the base depth is 0 and the
+parent is at column 0 or the root, or the base depth is positive; the body is always deeper than the
+parent -/
+theorem blockPos_cols (o : Opts) (p : SerScalar.Pos) (hp : isBlockPos p = true) (hstep : 1 ≤ o.indentStep) :
+    (posCtx o p).inFlow = false ∧ 1 ≤ blockCols o (posCtx o p) ∧
+    posParentO o (toRead p) + 1 ≤ (blockCols o (posCtx o p) : Int) ∧
+    ((blockBase (posCtx o p) = 0 ∧ posParentO o (toRead p) ≤ 0) ∨ blockBase (posCtx o p) > 0) := by
+  have h1 : ∀ cx : Ctx, cx.shift = 0 → ∀ d, indentCols o cx d = o.indentStep * d := by
+    intro cx hs d; apply indentCols_nat; rw [hs]; simp
+  cases p with
+  | root =>
+    have : blockCols o (posCtx o .root) = o.indentStep := by simp [blockCols, blockBase, posCtx, h1]
+    refine ⟨rfl, by omega, by simp only [this, toRead, posParentO, posParent]; omega, Or.inl ⟨rfl, by simp [toRead, posParentO, posParent]⟩⟩
+  | mapValue =>
+    have : blockCols o (posCtx o .mapValue) = o.indentStep := by simp [blockCols, blockBase, posCtx, h1]
+    refine ⟨rfl, by omega, by simp only [this, toRead, posParentO, posParent]; omega, Or.inl ⟨rfl, by simp [toRead, posParentO, posParent]⟩⟩
+  | seqItem =>
+    have : blockCols o (posCtx o .seqItem) = o.indentStep := by simp [blockCols, blockBase, posCtx, h1]
+    refine ⟨rfl, by omega, by simp only [this, toRead, posParentO, posParent]; omega, Or.inl ⟨rfl, by simp [toRead, posParentO, posParent]⟩⟩
+  | variant =>
+    have : blockCols o (posCtx o .variant) = o.indentStep := by simp [blockCols, blockBase, posCtx, h1]
+    refine ⟨rfl, by omega, by simp only [this, toRead, posParentO, posParent]; omega, Or.inl ⟨rfl, by simp [toRead, posParentO, posParent]⟩⟩
+  | seqInSeq =>
+    have : blockCols o (posCtx o .seqInSeq) = o.indentStep + 2 := by
+      show indentCols o _ 2 = o.indentStep + 2
+      apply indentCols_nat
+      simp only [posCtx]
+      omega
+    refine ⟨rfl, by omega, by simp only [this, toRead, posParentO, posParent]; omega, Or.inr (by simp [blockBase, posCtx])⟩
+  | nestedMapValue =>
+    have : blockCols o (posCtx o .nestedMapValue) = o.indentStep * 2 := by simp [blockCols, blockBase, posCtx, h1]
+    refine ⟨rfl, by omega, by simp only [this, toRead, posParentO]; omega, Or.inr (by simp [blockBase, posCtx])⟩
+  | seqInMap =>
+    cases hc : o.compactList with
+    | true =>
+      have hb : blockBase (posCtx o .seqInMap) = 0 := by simp [blockBase, posCtx, hc]
+      have : blockCols o (posCtx o .seqInMap) = o.indentStep := by
+        unfold blockCols; rw [hb, h1 _ rfl]; omega
+      refine ⟨rfl, by omega, by simp only [this, toRead, posParentO, seqInMapDepth, hc]; simp; omega,
+        Or.inl ⟨hb, by simp [toRead, posParentO, seqInMapDepth, hc]⟩⟩
+    | false =>
+      have hb : blockBase (posCtx o .seqInMap) = 1 := by simp [blockBase, posCtx, hc]
+      have : blockCols o (posCtx o .seqInMap) = o.indentStep * 2 := by
+        unfold blockCols; rw [hb, h1 _ rfl]
+      refine ⟨rfl, by omega, by simp only [this, toRead, posParentO, seqInMapDepth, hc]; simp; omega,
+        Or.inr (by omega)⟩
+  | mapKey => cases hp
+  | flowSeq => cases hp
+  | flowMapValue => cases hp
+  | flowMapKey => cases hp
+
+/-- Geometry of a block scalar that is not sent to the fall-back: the body column is positive and deeper
+than the parent node; an indentation indicator is only written where it is a single digit and the parent
+is at column 0 or the root. -/
+theorem block_geometry (o : Opts) (p : SerScalar.Pos) (hp : isBlockPos p = true) (hstep : 1 ≤ o.indentStep)
+    (v : List Char) (hnf : blockFallback o (posCtx o p) v = false) :
+    (posCtx o p).inFlow = false ∧ 1 ≤ blockCols o (posCtx o p) ∧
+    (needsInd v = false → posParentO o (toRead p) + 1 ≤ (blockCols o (posCtx o p) : Int)) ∧
+    (needsInd v = true → blockCols o (posCtx o p) ≤ 9 ∧ posParentO o (toRead p) ≤ 0) ∧
+    (∀ c ∈ v, isControl c = true → c = '\n' ∨ c = '\t') := by
+  simp only [blockFallback, Bool.or_eq_false_iff] at hnf
+  obtain ⟨⟨⟨h1, _⟩, h3⟩, _⟩ := hnf
+  have hctl : ∀ c ∈ v, isControl c = true → c = '\n' ∨ c = '\t' := by
+    intro c hc hcc
+    have := any_false_mem h3 c hc
+    simp only [hcc, Bool.true_and, Bool.and_eq_false_iff, bne_eq_false_iff_eq] at this
+    exact this
+  obtain ⟨hfl, hpos, hdeep, hcase⟩ := blockPos_cols o p hp hstep
+  refine ⟨hfl, hpos, fun _ => hdeep, ?_, hctl⟩
+  intro hn
+  simp only [hn, Bool.true_and, Bool.or_eq_false_iff, decide_eq_false_iff_not] at h1
+  rcases hcase with ⟨_, hpar⟩ | hb
+  · exact ⟨by omega, hpar⟩
+  · exact absurd hb h1.2
 
 /-- what the automatic literal selection implies about the string (since the repair a252cf9: the
 writer itself refuses CR / NUL / other controls and contents made of line breaks only) -/
@@ -273,69 +312,67 @@ theorem autoStyle_literal_facts {o : Opts} {v : List Char} (h : autoStyle o fals
               subst this; exact ⟨by decide, by decide⟩
           · rw [if_neg hpv] at h; cases h
 
-/-- "the writer emits the automatic literal style" in a position whose base depth is 0: the selection,
-and no fall-back to quoting because of a two-digit indentation indicator -/
-def writerLiteral (o : Opts) (v : List Char) : Prop :=
-  autoStyle o false v = some .literal ∧ (needsInd v = true → o.indentStep ≤ 9)
+/-- the block header as the reader's lemma wants it -/
+theorem blockHeaderTail_eq (o : Opts) (cx : Ctx) (v : List Char) :
+    blockHeaderTail o cx v =
+      litHeader (if firstLineLeadingSpaces (trimEndNl v) > 0 then some (blockCols o cx) else none)
+        (v.length - (trimEndNl v).length) := by
+  unfold blockHeaderTail litHeader needsInd
+  by_cases h : firstLineLeadingSpaces (trimEndNl v) > 0 <;> simp [h]
 
-/-- The automatic literal block round-trips at document level: root, map value, seq item, enum newtype
-payload, for every string the writer sends there, under every option vector. -/
-theorem literal_doc (o : Opts) (p : SerScalar.Pos) (v : List Char) (hp : blockSimplePos p = true)
-    (hstep : 1 ≤ o.indentStep) (hw : writerLiteral o v) :
+/-- The automatic literal block round-trips at document level in every block value position with a
+fixed opening, whenever the writer really emits it (selection, no fall-back), under every option vector. -/
+theorem literal_doc (o : Opts) (p : SerScalar.Pos) (v : List Char) (hp : isBlockPos p = true)
+    (hstep : 1 ≤ o.indentStep) (hauto : autoStyle o false v = some .literal)
+    (hnf : blockFallback o (posCtx o p) v = false) :
     ∃ t, emitDoc o p v = .ok t ∧ readDoc (toRead p) t = some (.literal, v) := by
-  obtain ⟨hauto, hdig⟩ := hw
-  obtain ⟨hq, hcontent, hchars⟩ := autoStyle_literal_facts hauto
-  let hdr := litHeader (if firstLineLeadingSpaces (trimEndNl v) > 0 then some (o.indentStep * (0 + 1)) else none)
-      (v.length - (trimEndNl v).length)
-  let body := '|' :: (hdr ++ '\n' :: joinLines (litLines (o.indentStep * (0 + 1)) v))
-  have hemit : emitDoc o p v = .ok (preamble o ++ (opening (toRead p) ++ body)) := by
-    have hV : writePlainOrQuoted ['V'] o.quoteAll = ['V'] := by rw [hq]; decide
-    cases p <;> first
-      | (cases hp; done)
-      | (simp only [emitDoc, hV]
-         rw [serializeStr_literal o _ v hauto hcontent (by intro h; simp only [blockBase]; have := hdig h; simp; omega) rfl]
-         cases hy : o.yaml12 <;> simp [blockBase, writeIndent, hy, spaces, opening, toRead, body, hdr, preamble])
+  obtain ⟨hkey, hflow, hclosing⟩ := blockPos_facts p hp
+  obtain ⟨hinflow, hN, hgeoA, hgeoE, _⟩ := block_geometry o p hp hstep v hnf
+  obtain ⟨_, hcontent, hchars⟩ := autoStyle_literal_facts hauto
+  let N := blockCols o (posCtx o p)
+  let hdr := blockHeaderTail o (posCtx o p) v
+  let T := '|' :: (hdr ++ '\n' :: joinLines (litLines N v))
+  have hser : serializeStr o (posCtx o p) v =
+      .ok (spOf (posCtx o p) ++ writeIndent o (posCtx o p) (blockBase (posCtx o p)) ++ T) := by
+    unfold serializeStr
+    rw [hinflow, hauto]
+    simp only [hnf, Bool.false_eq_true, if_false, spOf, T, hdr, N, literalBody_eq _ v hcontent]
+  have hemit := emit_of_block o p hkey hflow v T (blockBase (posCtx o p)) (by intro e; subst e; rfl) hser
   refine ⟨_, hemit, ?_⟩
+  have hhdr_eq := blockHeaderTail_eq o (posCtx o p) v
   have hhdr : ∀ c ∈ hdr, isBreak c = false ∧ isNul c = false := by
+    show ∀ c ∈ blockHeaderTail o (posCtx o p) v, _
+    rw [hhdr_eq]
     apply litHeader_chars
     intro n hn
     by_cases hf : firstLineLeadingSpaces (trimEndNl v) > 0
     · rw [if_pos hf] at hn; injection hn with e
-      have := hdig (by simp [needsInd, hf])
-      omega
+      have := (hgeoE (by simp [needsInd, hf])).1
+      subst e
+      exact ⟨hN, this⟩
     · rw [if_neg hf] at hn; cases hn
-  have hlines : ∀ l ∈ litLines (o.indentStep * (0 + 1)) v, ∀ c ∈ l, c ≠ '\n' ∧ c ≠ '\r' := by
+  have hlines : ∀ l ∈ litLines N v, ∀ c ∈ l, c ≠ '\n' ∧ c ≠ '\r' := by
     intro l hl c hc
     rcases litLines_mem _ v l hl c hc with e | ⟨hm, hn⟩
     · subst e; exact ⟨by decide, by decide⟩
     · exact ⟨hn, (hchars c hm).1⟩
-  have hpp : simplePos (toRead p) = true := by cases p <;> first | rfl | (cases hp; done)
-  have hso := stripOpening_opening (toRead p) hpp '|' (hdr ++ '\n' :: joinLines (litLines (o.indentStep * (0 + 1)) v)) (by decide)
-  have hcl : (toRead p).closing = [] := by cases p <;> first | rfl | (cases hp; done)
-  have hfl : (toRead p).isFlow = false := by cases p <;> first | rfl | (cases hp; done)
-  have hnode := readNode_block (toRead p) hcl hfl true hdr (litLines (o.indentStep * (0 + 1)) v)
-    (posCol0 (toRead p)) (posParent (toRead p)) hhdr hlines
-  have hread := literal_read (o.indentStep * (0 + 1)) (posParent (toRead p)) v (by omega) hcontent
-    (by intro _; cases p <;> first | (cases hp; done) | (simp only [toRead, posParent]; omega))
-    (by intro hf
-        have := hdig (by simp [needsInd, hf])
-        refine ⟨by omega, ?_⟩
-        cases p <;> first | (cases hp; done) | (simp only [toRead, posParent]; omega))
-  simp only [if_true] at hnode
+  have hnode := readNode_block (toRead p) hclosing hflow true hdr (litLines N v)
+    (posCol0 (toRead p)) (posParentO o (toRead p)) hhdr hlines
+  have hread : readBlock true (posParentO o (toRead p)) hdr (litLines N v) = some (v, []) := by
+    show readBlock true _ (blockHeaderTail o (posCtx o p) v) _ = _
+    rw [hhdr_eq]
+    apply literal_read N (posParentO o (toRead p)) v hN hcontent
+    · intro h0; exact hgeoA (by simp [needsInd, h0])
+    · intro h0; exact hgeoE (by simp [needsInd, h0])
+  try simp only [if_true] at hnode
   rw [hread] at hnode
-  -- the document frame
-  obtain ⟨hh1, hh2⟩ := opening_head (toRead p) '|' (hdr ++ '\n' :: joinLines (litLines (o.indentStep * (0 + 1)) v)) (by decide) (by decide)
-  rw [readDoc_frame o (toRead p) _ hh1 hh2]
-  have hpc : ((opening (toRead p) ++ body).head? == some '%') = false := by
-    cases p <;> first | rfl | (cases hp; done)
-  have hnul : (opening (toRead p) ++ body).any isNul = false := by
-    have h1 : (opening (toRead p)).any isNul = false := by cases p <;> decide
+  have hnul : (T).any isNul = false := by
     have h2 : hdr.any isNul = false := by
       apply Bool.eq_false_iff.mpr
       intro hc
       obtain ⟨c, hcm, hcn⟩ := List.any_eq_true.mp hc
       rw [(hhdr c hcm).2] at hcn; cases hcn
-    have h3 : (joinLines (litLines (o.indentStep * (0 + 1)) v)).any isNul = false := by
+    have h3 : (joinLines (litLines N v)).any isNul = false := by
       apply Bool.eq_false_iff.mpr
       intro hc
       obtain ⟨c, hcm, hcn⟩ := List.any_eq_true.mp hc
@@ -346,16 +383,10 @@ theorem literal_doc (o : Opts) (p : SerScalar.Pos) (v : List Char) (hp : blockSi
         · subst e; revert hcn; decide
         · rw [(hchars c hm).2] at hcn; cases hcn
       · subst e; revert hcn; decide
-    simp only [body, List.any_append, List.any_cons, h1, h2, h3]
+    simp only [T, List.any_append, List.any_cons, h2, h3]
     decide
-  show readDocBody (toRead p) (opening (toRead p) ++ body) = _
-  unfold readDocBody
-  rw [hpc, hnul]
-  simp only [Bool.or_self, Bool.false_eq_true, if_false]
-  show (match stripOpening (toRead p) (opening (toRead p) ++ '|' :: (hdr ++ '\n' :: joinLines (litLines (o.indentStep * (0 + 1)) v))) with
-    | none => none
-    | some (s, col0, parent) => readNode (toRead p) s col0 parent) = _
-  rw [hso]
+  show readDoc (toRead p) (preamble o ++ (openingO o (toRead p) ++ '|' :: (hdr ++ '\n' :: joinLines (litLines N v)))) = _
+  rw [readDoc_open o (toRead p) hstep '|' _ (by decide) (by decide) (by decide) hnul]
   simp only [hnode, Option.bind_some, onlyTrailers, List.all_nil, if_true]
 
 end SaphyrVerif.Lemmas.C12
